@@ -654,6 +654,10 @@ fn process_request_obj(request: &Request, dbs: &Arc<Databases>, client: &mut Cli
             version,
         } => {
             log::info!("Processing resolve for {} to {} ", key, value);
+            // A resolve replicated by the primary is applied here, only a resolve that comes from a
+            // client is sent to the primary (sending the primary's own resolve back to it makes the
+            // primary resolve and replicate it again, for ever)
+            let apply_here = dbs.is_primary() || client.is_primary();
             // Replica set or admin auth resolving
             if client.auth.load(Ordering::SeqCst) {
                 apply_to_database_name(
@@ -661,7 +665,7 @@ fn process_request_obj(request: &Request, dbs: &Arc<Databases>, client: &mut Cli
                     client,
                     &db_name,
                     &|db| {
-                        if dbs.is_primary() {
+                        if apply_here {
                             db.resolve_conflit(
                                 Change {
                                     key: key.clone(),
@@ -690,7 +694,7 @@ fn process_request_obj(request: &Request, dbs: &Arc<Databases>, client: &mut Cli
                 );
             } else {
                 apply_to_database(&dbs, &client, &|db| {
-                    if dbs.is_primary() {
+                    if apply_here {
                         db.resolve_conflit(
                             Change {
                                 key: key.clone(),
